@@ -327,7 +327,11 @@ func (w *World) prefixOfStoreValue(v ssa.Value, depth int) (string, *Expr) {
 // SectionOfKey returns the package-level prefix variable that starts the key, as
 // "<relpkg>.<Var>", or "?" when it cannot be determined.
 func (w *World) SectionOfKey(key *Expr) string {
-	return w.sectionOf(key, 0)
+	s := w.sectionOf(key, 0)
+	if s == "~loop" {
+		return "?"
+	}
+	return s
 }
 
 func (w *World) sectionOf(e *Expr, depth int) string {
@@ -337,10 +341,15 @@ func (w *World) sectionOf(e *Expr, depth int) string {
 	switch e.Op {
 	case "global":
 		return e.Name
+	case "loop":
+		return "~loop" // the loop-carried value: whatever the other alternatives of the enclosing phi start with
 	case "phi":
 		s := ""
 		for _, a := range e.Args {
 			x := w.sectionOf(a, depth+1)
+			if x == "~loop" {
+				continue
+			}
 			if s == "" {
 				s = x
 			} else if s != x {
@@ -353,6 +362,10 @@ func (w *World) sectionOf(e *Expr, depth int) string {
 		return s
 	case "call":
 		if e.Name == "builtin:append" && len(e.Args) > 0 {
+			// append(make([]byte, 0, n), prefix...): the key starts with what is appended to the empty buffer
+			if len(e.Args) == 2 && e.Args[0].Op == "makeslice" && len(e.Args[0].Args) >= 1 && e.Args[0].Args[0].Op == "const" && e.Args[0].Args[0].Name == "0" {
+				return w.sectionOf(e.Args[1], depth+1)
+			}
 			return w.sectionOf(e.Args[0], depth+1)
 		}
 		if e.Callee != nil {
